@@ -688,7 +688,12 @@ impl Scenario for ReplCell {
                         x.structural_ops += 1;
                     }
                 }
-                x.sim.apply_op(op);
+                // observers of the library run inside the operation: a panic there is the library's
+                if let Err((msg, loc)) = guarded(|| x.sim.apply_op(op)) {
+                    return Err(Violation::new(self.property, "panic", format!("the operation `{}` panicked inside the library: {msg} ({})", op.show(), short_loc(&loc)))
+                        .feat("side:server")
+                        .feat(format!("at:{}", short_loc(&loc))));
+                }
                 self.check_visibility_query(x)?;
                 self.advance(x);
             }
